@@ -13,6 +13,7 @@ open RV.Server
 
 inductive Cmd where
   | S (i conn : Nat) | s (i : Nat) | D (conn peer : Nat) (d : Bytes) | d (t : Nat) | F (t : Nat) (code : Nat)
+  | R (t : Nat) (code : Nat)   -- the handler of task t writes its reply NOW and keeps running (a later F ends it)
   | X (j : Nat) | x (j : Nat) | C (j : Nat) | W (j : Nat) | e (conn : Nat) | f (conn : Nat) (k : ReadErrKind) | Z
 
 def parseCmd (c : String) : Option Cmd :=
@@ -31,6 +32,9 @@ def parseCmd (c : String) : Option Cmd :=
   | some 'F' => match arg.splitOn ":" with
       | [t] => t.toNat?.map (.F · 0)
       | [t, c] => do pure (.F (← t.toNat?) (← c.toNat?))
+      | _ => none
+  | some 'R' => match arg.splitOn ":" with
+      | [t, c] => do pure (.R (← t.toNat?) (← c.toNat?))
       | _ => none
   | some 'X' => arg.toNat?.map .X
   | some 'x' => arg.toNat?.map .x
@@ -200,6 +204,18 @@ def scenarioCase (args : List String) (impl : String) : Verdict :=
                    | none => next is "F=noop")
                 | none => next is "F=noop")
              | _ => next is "F=noop")
+          | .R t code =>
+            (match s.tasks[t]?, dgrams[t]? with
+             | some ⟨_, .inHandler _⟩, some (_, peer, d) =>
+               let req := match classify md5 cfg peer d with
+                 | .handle _ p => p
+                 | _ => ⟨0, 0, [], [], []⟩
+               (match (if code = 0 then none else step md5 cfg s (.taskReply t code labReplyAttrs)) with
+                | some sR => next { is with st := sR } ("R=sent" ++ (match lastReply sR with
+                    | some (rconn, raddr, w) => replyObs rconn raddr req d w
+                    | none => ""))
+                | none => next is "R=noop")
+             | _, _ => next is "R=noop")
           | .X j =>
             if j ≥ nD then next is "X=noop" else
             (match is.stage.getD j .none with
@@ -312,6 +328,16 @@ def scenarioCase (args : List String) (impl : String) : Verdict :=
                    [("reply_to_source_on_receiving_socket_with_valid_authenticator",
                       !isReply || parts == ["F=done", s!"{cn}>peer{peer}", s!"conn{cn}", "auth=true", s!"code={code}"]),
                     ("shutdown_cancels_the_request_contexts", cd == s!"cd={boolStr w.sdReq}")]
+               | none => cont w [("task_known", false)])
+            else cont w []
+          | .R t code =>
+            if tok.startsWith "R=sent" then
+              (match w.dg[t]? with
+               | some (_, cn, peer, _) =>
+                 -- (the task stays in flight: a duplicate that arrives now is still a duplicate)
+                 cont w [("reply_to_source_on_receiving_socket_with_valid_authenticator",
+                      !(Rfc.encClass code == .hashReqAuth) ||
+                        tok.splitOn ":" == ["R=sent", s!"{cn}>peer{peer}", s!"conn{cn}", "auth=true", s!"code={code}"])]
                | none => cont w [("task_known", false)])
             else cont w []
           | .X _ =>
